@@ -11,6 +11,7 @@ Line-protocol driver for C19 (group chain). One op per line:
   restart                            drop memory, run start-up on the store
   crash <k> add …|rmlast|rmto <h>    the op with only k physical writes let through, then restart
   fault <j> add …|rmlast|rmto <h>    the op with its j-th physical write (from 0) failing with an error
+  sqlfault ins|del <id> <mutator>    the op while the sqlite insert / delete for group <id> fails, then restart
   forkput <key>                      Put(key, 0x01) on the store with prefix "groupFork" (shared key space)
   cadd <id> <pre> <parent> <create>  AddGroup that ran concurrently with another one (answer: result only)
   count | last | byheight <i> | byid <x> | iter | sync <x> | syncat <h> <n> | dump | mirror
@@ -242,6 +243,36 @@ def step (s : DState) (line : String) : DState × String :=
         | some kb =>
           let c' := { c with disk := sput c.disk ([0x46, 0x6f, 0x72, 0x6b] ++ kb) (.ref [1]) }
           ({ s with boot := some (.alive c') }, "ok")
+      | "sqlfault" :: kind :: idh :: rest =>
+        -- the sqlite statement for group <id> (insert / delete) fails while the op runs; the real code
+        -- panics there (process death), so a start-up follows
+        match (if kind == "ins" then some SqlKind.ins else if kind == "del" then some SqlKind.del else none), ofHex? idh with
+        | some k, some fid =>
+          let f : SqlFault := { kind := k, id := fid }
+          let fin (pre : String) (c' : Chain) (panicked : Bool) : DState × String :=
+            if preCycle c'.disk then ({ s with boot := none }, "unmodelled") else
+            let b := restart c'.disk c'.mirror s.genesis
+            ({ s with boot := b }, (if panicked then "panic" else pre) ++ " / " ++ bootStr b)
+          match rest with
+          | ["add", a, b, p, cr] =>
+            match parseGroup4 a b p cr with
+            | none => (s, "bad-op")
+            | some g =>
+              if addCheck c g = .ok ∧ c.count ≥ 9223372036854775808 then ({ s with boot := none }, "unmodelled") else
+              let r := addGroupS c g f
+              fin (addResStr r.1) r.2.1 r.2.2
+          | ["rmlast"] =>
+            let r := removeS c c.last f
+            fin (toString r.1) r.2.1 r.2.2
+          | ["rmto", h] =>
+            match parseNat? h with
+            | none => (s, "bad-op")
+            | some h =>
+              if c.count ≥ 4294967296 then (s, "unmodelled") else
+              let r := rmToS c h f
+              fin "done" r.1 r.2
+          | _ => (s, "bad-op")
+        | _, _ => (s, "bad-op")
       | "fault" :: j :: rest =>
         -- the j-th physical write (from 0) of the op returns an error and is not performed
         match parseNat? j, rest with
